@@ -11,8 +11,12 @@ Definition expected_reason (d : data) (s : scenario) (p : params) (acc egr : lis
             else (if service_to_destination_b d s p egr false then R_NO_ROUTING_FOUND else R_NO_SERVICE_TO_DESTINATION)
   end.
 
+(* tables as the walking router offers them: each stop at most once, times within the maxima (wf_tables_b).  Without
+   it the statement is false of the model AND meaningless of the code: with a stop listed twice `nodesAccess` keeps the
+   first row and `nodesTentativeTime` the last (Example C07_needs_distinct_table_stops in Proofs/ReasonIff.v). *)
 Definition C07_full_statement : Prop :=
   forall d s p acc egr, wf_data_b d = true -> find_scenario d (q_scenario p) = Some s -> wf_params_b p = true ->
+    wf_tables_b d p acc egr = true ->
     forall reason, answer_route d s p acc egr = NoRouting reason -> reason = expected_reason d s p acc egr.
 
 (* the access-emptiness part holds for every dataset and query, by computation on the table shapes *)
@@ -35,3 +39,50 @@ Theorem C07_example_no_service :
   expected_reason ex_data scen_all (ex_params true 37000) ex_acc ex_egr = R_NO_SERVICE_FROM_ORIGIN.
 Proof. vm_compute. auto. Qed.
 Print Assumptions C07_example_no_service.
+
+(* ---- the full statement ------------------------------------------------------------------------------------ *)
+From TrV Require Proofs.ReasonIff.
+Lemma expected_reason_same d s p acc egr : expected_reason d s p acc egr = ReasonIff.expected_reason d s p acc egr.
+Proof. reflexivity. Qed.
+Print Assumptions expected_reason_same.
+
+Theorem C07_full : C07_full_statement.
+Proof.
+  intros d s p acc egr H1 H2 H3 H4 reason H. rewrite expected_reason_same.
+  exact (ReasonIff.C07_reason d s p acc egr H1 H2 H3 H4 reason H).
+Qed.
+Print Assumptions C07_full.
+
+(* the converse direction: a false fact is always reported (the reason is exactly characterised) *)
+Theorem C07_no_service_from_origin_reported : forall d s p acc egr,
+  wf_data_b d = true -> wf_params_b p = true -> wf_tables_b d p acc egr = true ->
+  acc <> [] -> egr <> [] -> q_fwd p = true -> service_from_origin_b d s p acc = false ->
+  calc_single d (conn_set d s) p acc egr true = NoRouting R_NO_SERVICE_FROM_ORIGIN.
+Proof. exact ReasonIff.C07_no_service_from_origin. Qed.
+Print Assumptions C07_no_service_from_origin_reported.
+
+Theorem C07_no_service_to_destination_reported : forall d s p acc egr,
+  wf_data_b d = true -> wf_params_b p = true -> wf_tables_b d p acc egr = true ->
+  acc <> [] -> egr <> [] -> q_fwd p = false -> service_to_destination_b d s p egr false = false ->
+  calc_single d (conn_set d s) p acc egr true = NoRouting R_NO_SERVICE_TO_DESTINATION.
+Proof. exact ReasonIff.C07_no_service_to_destination. Qed.
+Print Assumptions C07_no_service_to_destination_reported.
+
+(* accessibility endpoint: NO_ACCESS_AT_PLACE / NO_SERVICE_AT_PLACE report the same facts *)
+Theorem C07_accessibility_reason : forall d s p rows,
+  wf_data_b d = true -> find_scenario d (q_scenario p) = Some s -> wf_params_b p = true ->
+  (if q_fwd p then wf_tables_b d p rows [] else wf_tables_b d p [] rows) = true ->
+  forall reason,
+    calc_allnodes d (conn_set d s) p rows = NoRouting reason <->
+    (rows = [] \/ ReasonIff.access_service_b d s p rows = false) /\ reason = ReasonIff.expected_access_reason p rows.
+Proof. exact ReasonIff.C07_access_reason. Qed.
+Print Assumptions C07_accessibility_reason.
+
+(* tie to the source *)
+From TrV Require Import Proofs.GuardsTie.
+Theorem C07_forward_step_is_code : forall d p k st c, fwd_step_code d p k st c = fwd_step d p k false st c.
+Proof. exact fwd_step_tie. Qed.
+Print Assumptions C07_forward_step_is_code.
+Theorem C07_reverse_step_is_code : forall d p k st c, rev_step_code d p k st c = rev_step d p k false st c.
+Proof. exact rev_step_tie. Qed.
+Print Assumptions C07_reverse_step_is_code.
